@@ -189,4 +189,47 @@ def genRow (rec : Rec) (fmt : List GCol) (filler : Str) : Except PyErr Str :=
   if fmt.isEmpty then .error .SyntaxError
   else genCols rec fmt (List.replicate (rowLen fmt) filler).flatten
 
+/-! ### vocabulary of the property statements -/
+
+/-- the value `generate_fwf_row` writes into a column: the record entry, else the mapping
+expression applied to the record, else nothing (the column keeps the filler) -/
+def source (rec : Rec) (c : GCol) : Option (Except PyErr Val) :=
+  match Val.lookup c.name rec with
+  | some v => some (.ok v)
+  | none => c.mapping.map (fun f => f rec)
+
+/-- a layout whose columns end where they say and do not overlap -/
+def Consistent (fmt : List GCol) : Prop :=
+  (∀ c ∈ fmt, c.till = c.offset + c.size)
+  ∧ fmt.Pairwise (fun a b => a.till ≤ b.offset ∨ b.till ≤ a.offset)
+
+/-- the parser-side description of a generator column (by `width` or by `till`), no validations -/
+def readBack (useWidth : Bool) (c : GCol) : PCol :=
+  { name := c.name, offset := some c.offset,
+    width := if useWidth then some c.size else none,
+    till := if useWidth then none else some c.till,
+    validations := [], errorMessage := none }
+
+/-- the layout `load_fwf` uses for line `k` (0-based) of a file of `n` lines: the footer layout for
+the last line, the header layout for the first one (unless it is also the last), else the body -/
+def layoutAt (hdr body ftr : List PCol) (n k : Nat) : List PCol :=
+  if k + 1 = n then ftr else if k = 0 then hdr else body
+
+/-- the entry of `successfully_parsed_rows` that line `x.1` at index `x.2` contributes (if any) -/
+def accOf (hdr body ftr : List PCol) (validate : Bool) (ret : Option Str) (n : Nat)
+    (x : Str × Nat) : Option Row :=
+  if x.1.isEmpty then none else
+  match parseRow x.1 (layoutAt hdr body ftr n x.2) validate with
+  | .ok (.parsed r) => some (addOriginal ret x.1 r)
+  | _ => none
+
+/-- the entry of `failed_rows` that line `x.1` at index `x.2` contributes (if any): `(k+1, row, msg)`,
+the last line without its number -/
+def rejOf (hdr body ftr : List PCol) (validate : Bool) (n : Nat) (x : Str × Nat) : Option Rej :=
+  if x.1.isEmpty then none else
+  match parseRow x.1 (layoutAt hdr body ftr n x.2) validate with
+  | .ok (.rejected rw msg) =>
+    some { line := if x.2 + 1 = n then none else some (x.2 + 1), row := rw, msg := msg }
+  | _ => none
+
 end N0.Fwf
